@@ -96,7 +96,7 @@ static int m_timeout(int f, int64_t d)
 
 /* ------------------------------------------------------- scripts and actions */
 
-enum { A_NONE, A_RUN, A_KILL, A_RUNA, A_TMO };
+enum { A_NONE, A_RUN, A_KILL, A_RUNA, A_TMO, A_BURST /* arg = k: k fibre_run_atomic calls in a row, fibres in turn */ };
 typedef struct { uint8_t kind; int8_t arg; } act_t;
 static act_t acts[40]; static int NA;
 static int32_t deltas[8]; static int ND;
@@ -134,6 +134,7 @@ static int do_action_impl(int a)
 	case A_RUN: fibre_run(&fibres[ac.arg]); return 0;
 	case A_KILL: return fibre_kill(&fibres[ac.arg]);
 	case A_RUNA: return fibre_run_atomic(&fibres[ac.arg]);
+	case A_BURST: { int r = 0; for (int i = 0; i < ac.arg; i++) if (fibre_run_atomic(&fibres[i % NF])) r |= 1 << i; return r; }
 	case A_TMO: return fibre_timeout(cur_t32 + (uint32_t)deltas[ac.arg]);
 	}
 	return 0;
@@ -207,7 +208,7 @@ static int op_enabled(int op)
 	/* scope: at most one unsatisfied fibre_timeout per dispatch */
 	if (acts[a1].kind == A_TMO && acts[a2].kind == A_TMO && deltas[acts[a1].arg] > 0 && deltas[acts[a2].arg] > 0) { return 0; }
 	/* scope: at most 8 undrained run_atomic requests (we stay at or below aq_limit) */
-	int na = (acts[a1].kind == A_RUNA) + (acts[a2].kind == A_RUNA);
+	int na = (acts[a1].kind == A_RUNA) + (acts[a2].kind == A_RUNA) + (acts[a1].kind == A_BURST ? acts[a1].arg : 0) + (acts[a2].kind == A_BURST ? acts[a2].arg : 0);
 	if (na && na > aq_limit) return 0;	/* requests made inside a dispatch start from a drained queue */
 	return 1;
 }
@@ -218,6 +219,7 @@ static void describe_action(int a, vx_sb *sb)
 	case A_RUN: vx_sb_printf(sb, "run(f%d)", ac.arg); break;
 	case A_KILL: vx_sb_printf(sb, "kill(f%d)", ac.arg); break;
 	case A_RUNA: vx_sb_printf(sb, "run_atomic(f%d)", ac.arg); break;
+	case A_BURST: vx_sb_printf(sb, "run_atomic x%d", ac.arg); break;
 	case A_TMO: vx_sb_printf(sb, "timeout(now%+d)", deltas[ac.arg]); break;
 	}
 }
@@ -249,6 +251,12 @@ static int model_action(int a, int implres, int f)
 	case A_RUNA:
 		if (implres) { if (Mo.naq < MAXAQ) Mo.aq[Mo.naq++] = ac.arg; }
 		else if (Mo.naq < 8) return diverge(OWN_C01, 1, "atomic-refused", "fibre_run_atomic(f%d) refused with only %d undrained requests", ac.arg, Mo.naq);
+		break;
+	case A_BURST:
+		for (int i = 0; i < ac.arg; i++) {
+			if (implres & (1 << i)) { if (Mo.naq < MAXAQ) Mo.aq[Mo.naq++] = (int8_t)(i % NF); }
+			else if (Mo.naq < 8) return diverge(OWN_C01, 1, "atomic-refused", "fibre_run_atomic(f%d), call %d of a burst, refused with only %d undrained requests", i % NF, i + 1, Mo.naq);
+		}
 		break;
 	case A_TMO:
 		exp = m_timeout(f, Mo.now + deltas[ac.arg]);
@@ -425,6 +433,7 @@ typedef struct {
 	int ndt; uint32_t dts[8];
 	int allow2;
 	int with_runa;			/* run_atomic in the alphabet (external and inside scripts) */
+	int burst;			/* scripts may post 3, 7 or 8 fibre_run_atomic requests in a row (the scope's limit is 8 undrained) */
 	int sleepers;			/* start state: this many fibres already asleep, all due one tick later, registered f0, f1, ... */
 	int with_kill;
 	int depth_quick, depth_thorough;
@@ -531,6 +540,17 @@ static void build_configs(void)
 		c.depth_quick = 3; c.depth_thorough = 4;
 		configs[nconfigs++] = c;
 	}
+	/* a pass that ends with 3, 7 or 8 undrained requests posted by the fibre it dispatched */
+	for (unsigned i = 0; i < 2; i++) {
+		memset(&c, 0, sizeof(c));
+		static char names[2][48]; static const uint32_t bb[] = { 77, 0xfffffffe }; snprintf(names[i], 48, "c03-n3-burst-base%08x", bb[i]);
+		c.name = names[i]; c.nf = 3; c.base = bb[i]; c.aq_limit = 8; c.burst = 1;
+		c.ndelta = 2; c.deltas[0] = 1; c.deltas[1] = 0x7fffff00;
+		c.ndt = 2; c.dts[0] = 0; c.dts[1] = 1;
+		c.allow2 = 1; c.with_runa = 0; c.with_kill = 1;
+		c.depth_quick = 3; c.depth_thorough = 4;
+		configs[nconfigs++] = c;
+	}
 	static const uint32_t b4[] = { 0, 0xfffffffe, 0x7ffffffe, 0x12345678 };
 	for (unsigned i = 0; i < lengthof(b4); i++) {
 		memset(&c, 0, sizeof(c));
@@ -556,6 +576,7 @@ static int setup(const config_t *c)
 	for (int g = 0; g < NF; g++) acts[NA++] = (act_t){ A_RUN, (int8_t)g };
 	if (c->with_kill) for (int g = 0; g < NF; g++) acts[NA++] = (act_t){ A_KILL, (int8_t)g };
 	if (c->with_runa) for (int g = 0; g < NF; g++) acts[NA++] = (act_t){ A_RUNA, (int8_t)g };
+	if (c->burst) { acts[NA++] = (act_t){ A_BURST, 3 }; acts[NA++] = (act_t){ A_BURST, 7 }; acts[NA++] = (act_t){ A_BURST, 8 }; }
 	for (int d = 0; d < ND; d++) acts[NA++] = (act_t){ A_TMO, (int8_t)d };
 	nops_total = OP_NEXT0 + NDT * NA * NA * 4;
 	probe_dt_all = 0x7ffffff8;
